@@ -86,6 +86,20 @@ class Mon(Monitor):
                         out.append(V('gap', 'publish-gaps-shrink', 'request %d: gaps (jitter removed) %.4f then %.4f' % (r.idx, g_prev, g_now)))
                     else:
                         self.see('gap-compared')
+        # while the connection is up every transmitted, unacknowledged request is driven by exactly one retry timer
+        tm = w.timers()
+        for r in w.reqs:
+            if r.kind not in ('pub', 'sub', 'unsub') or not r.pending or not r.tx or (r.kind == 'pub' and not r.qos):
+                continue
+            c = w.conn(r.addr)
+            if c is None or c.lost or c.close_req is not None or w.phase(c) != 'connected':
+                continue
+            if not any(t[1] == c.idx for t in r.tx) and not any(t[1] == c.idx for t in r.rel_tx):
+                continue          # carried over, not yet resumed on this connection
+            nt = sum(1 for (kind, c2, r2, dt) in tm if r2 == r.idx and kind != 'connectError')
+            if nt == 0 and not any(o[0] == 'exc' for o in w.new_obs()):
+                out.append(V('norepeat', 'unacknowledged-packet-without-timer/%s/on-%s' % (expected_type(r), ev[0]),
+                             'request %d is unacknowledged on a live connection but no retry timer is armed for it' % r.idx))
         # every expiry of a retry timer of an unacknowledged packet on a live connection produces one copy
         if ev[0] == 'tick' and exp is not None:
             ri, ci, t, was_pending, conn_up = exp
@@ -158,7 +172,7 @@ def scenarios(ctx):
         out.append(Std('pub-v%d-heldback' % v, profile='pub', closing=False,
                        init=(('connect', 0, False, 0, v), ('connack', 0, 0, False)), connects=[(False, 0, v)],
                        reconnects=[(False, 0, v)], pub_qos=(1, 2), windows=(1, 2, 3),
-                       budgets=dict(pub=3, ack=1 if q else 2, tick=2 if q else 3, setwin=1 if q else 2, lose=0 if q else 1,
+                       budgets=dict(pub=3, ack=1 if q else 2, misack=1, tick=2 if q else 3, setwin=1 if q else 2, lose=0 if q else 1,
                                     rebuild=0 if q else 1, connect=0 if q else 1, connack=0 if q else 1)))
     return out
 
